@@ -71,10 +71,11 @@ def rule_cap_on_every_newline(ctx):
     r.check(wit is None, "do_blank_lines/cap-on-every-path", db.loc(f, f.blocks[gate[0]]["term"]["l"]),
             "a newline chunk can pass through do_blank_lines without the nl_max test", path=["%s:%d" % (f.file, l) for l in f.path_lines(list(wit))] if wit else None)
     caps = [n for n in db.calls_in(f, "blank_line_max") if expr_str(f, n["i"]) == "blank_line_max(pc, options::nl_max)"]
-    r.check(len(caps) == 1 and ("options::nl_max() > 0", True) in _conds(f, caps[0]) and ("pc->GetNlCount() > options::nl_max()", True) in _conds(f, caps[0]),
+    OVER = ("pc->GetNlCount() > options::nl_max()", "options::nl_max() < pc->GetNlCount()")
+    r.check(len(caps) == 1 and ("options::nl_max() > 0", True) in _conds(f, caps[0]) and any((t, True) in _conds(f, caps[0]) for t in OVER),
             "do_blank_lines/cap-call", db.loc(f, caps[0] if caps else f.l0), "the nl_max test no longer calls blank_line_max(pc, options::nl_max) under count > nl_max")
     if caps:
-        extra = [c for c in _conds(f, caps[0]) if c[0] not in ("options::nl_max() > 0", "pc->GetNlCount() > options::nl_max()", "pc->IsNot(CT_NEWLINE)", "prev->Is(CT_IGNORED)") + REGION_TESTS + (
+        extra = [c for c in _conds(f, caps[0]) if c[0] not in ("options::nl_max() > 0", "pc->IsNot(CT_NEWLINE)", "prev->Is(CT_IGNORED)") + OVER + REGION_TESTS + tuple("options::nl_max() > 0 && " + t for t in OVER) + (
                                                               "pc->IsNotNullChunk()", "options::nl_max() > 0 && pc->GetNlCount() > options::nl_max()", "prev->IsNotNullChunk()")]
         r.check(not extra, "do_blank_lines/cap-unconditional", db.loc(f, caps[0]), "the cap additionally depends on %s" % extra)
     m = db.fn("blank_line_max", file=BL)
